@@ -13,7 +13,8 @@ PROP = {
   "saml2_tophat.response:AuthnResponse._bearer_confirmed",
   "saml2_tophat.response:AuthnResponse._assertion",
   "saml2_tophat.response:AuthnResponse.get_subject",
-  "saml2_tophat.response:StatusResponse._verify"
+  "saml2_tophat.response:StatusResponse._verify",
+  "saml2_tophat.time_util:str_to_time"
  ],
  "bounded": [
   "time_parse"
